@@ -7,7 +7,7 @@ SPEC = {
     "thorough_budget_s": 900,
     "chunk": 15,
     "rule": (
-        "one case = one seeded history on one document (sources and reopen routes as C03) of edits (body, meta, styles; generated paragraphs/headings mixing text with text:s, text:tab, text:line-break, nested spans, links, footnotes, frames with text boxes, bookmarks, annotations, reference marks, fields in seeded adjacency) and 'save sets': the same state is saved as plain zip (the reference), then under a seeded selection/order of {pretty zip, folder with default pretty, folder pretty=False, flat xml default pretty, flat xml pretty=False, zip default} to paths and BytesIO targets, then as plain zip again. Oracles: (i) every variant vs the reference, through an independent reader: ODF white-space-aware text of every text:p/text:h identical, element skeleton + attribute values identical, character data of leaf elements identical; (ii) the in-memory document read through the public API (serialisation of the five XML parts, bytes of the others) is identical before and after EVERY save, generator stamp apart; (iii) the final plain save equals the first part by part; (iv) with an injected write error in one variant, the save may raise but memory must be unchanged and the later saves correct. distinct = distinct run digest. non-trivial = >= 1 successful save and (>= 1 edit or >= 1 reopen)."
+        "one case = one seeded history on one document (sources and reopen routes as C03) of edits (body, meta, styles; generated paragraphs/headings mixing text with text:s, text:tab, text:line-break, nested spans, links, footnotes, frames with text boxes, bookmarks, annotations, reference marks, fields in seeded adjacency) and 'save sets': the same state is saved as plain zip (the reference), then under a seeded selection/order of {pretty zip, folder with default pretty, folder pretty=False, flat xml default pretty, flat xml pretty=False, zip default} to paths and BytesIO targets (one buffer re-used, the source folder saved in place with or without backup, the flat export sometimes as the very first save), then as plain zip again; histories also delete unreferenced parts, switch the mimetype to / from its template variant and place the same picture in several frames. Oracles: (i) every variant vs the reference, through an independent reader: ODF white-space-aware text of every text:p/text:h identical, element skeleton + attribute values identical, character data of leaf elements identical; (ii) the in-memory document read through the public API (serialisation of the five XML parts, bytes of the others) is identical before and after EVERY save, generator stamp apart; (iii) the final plain save equals the first part by part; (iv) with an injected write error in one variant, the save may raise but memory must be unchanged and the later saves correct. distinct = distinct run digest. non-trivial = >= 1 successful save and (>= 1 edit or >= 1 reopen)."
     ),
     "assumptions": [
         "the part-store model (engines/docsim.py PartStore) and the independent package reader (simkit/xmlref.py read_package, c14n) are trusted",
